@@ -21,5 +21,22 @@ Definition entry_c14_soname (args : list N) : list N :=
   | Err => [1] | Panic => [2] | Unspec => [3]
   end.
 
+(* the same readers on a module read from PROCESS memory: [start; bytes of the mapping...] (nothing mapped beyond) *)
+Definition proc_mem (start : N) (b : bytes) : memory :=
+  {| m_byte := fun a => if (a <? start) || (N.of_nat (length b) <=? a - start) then None else nth_error b (N.to_nat (a - start));
+     m_size := 0; m_start := Some start |}.
+Definition entry_c14p (args : list N) : list N :=
+  match args with
+  | start :: b => match build_id true (proc_mem start b) with Ok d => 0 :: d | Err => [1] | Panic => [2] | Unspec => [3] end
+  | [] => []
+  end.
+Definition entry_c14p_soname (args : list N) : list N :=
+  match args with
+  | start :: b => match soname (proc_mem start b) with
+                  | Ok d => match utf8_decode (length d) d with Some _ => 0 :: d | None => [3] end
+                  | Err => [1] | Panic => [2] | Unspec => [3] end
+  | [] => []
+  end.
+
 (* oracle lines computed by the harness's independent reader: the expected answer is the input *)
 Definition entry_const (args : list N) : list N := args.
